@@ -267,11 +267,13 @@ impl World {
         let rxp: Vec<Value> = frames.iter().map(|f| self.proj.frame(1 - e, f)).collect();
         let n = if e == 0 { &mut self.a } else { &mut self.b };
         let bp = n.dev.tx_budget.is_some();
+        // frames a back-pressured device kept from the previous poll are received by this one
+        let lo = n.dev.rx.len();
         match n.poll(self.now, frames, egress_only) {
             Ok(out) => {
                 let pa = n.poll_at(self.now);
                 let outs: Vec<Value> = out.iter().map(|o| self.proj.frame(e, o)).collect();
-                t.ev(json!({"ev":"poll","ep":e,"now":self.now,"rx":rxp,"out":outs,"pa":pa,"eg":egress_only,"bp":bp}));
+                t.ev(json!({"ev":"poll","ep":e,"now":self.now,"rx":rxp,"out":outs,"pa":pa,"eg":egress_only,"bp":bp,"lo":lo}));
                 Some(out)
             }
             Err(m) => {
